@@ -51,24 +51,26 @@ func copyMsg(m []byte) *[]byte {
 }
 
 // readMsgUdp reads dns frame from r. r typically should be a udp connection.
-// It uses a 4kb rx buffer and ignores any payload that is too small for a dns msg.
+// It ignores any payload that is too small for a dns msg.
 // If no error, the length of payload always >= 12 bytes.
 func readMsgUdp(r io.Reader) (*[]byte, error) {
-	// TODO: Make this configurable?
-	// 4kb should be enough.
-	payload := pool.GetBuf(4095)
+	// A datagram can carry a dns msg of up to 65535 bytes. Reading into a
+	// smaller buffer silently cuts a larger reply. Read into a max size
+	// buffer and copy the (typically small) msg out.
+	rxBuf := pool.GetBuf(dns.MaxMsgSize)
+	defer pool.ReleaseBuf(rxBuf)
 
 readAgain:
-	n, err := r.Read(*payload)
+	n, err := r.Read(*rxBuf)
 	if err != nil {
-		pool.ReleaseBuf(payload)
 		return nil, err
 	}
 	if n < dnsHeaderLen {
 		goto readAgain
 	}
-	*payload = (*payload)[:n]
-	return payload, err
+	payload := pool.GetBuf(n)
+	copy(*payload, (*rxBuf)[:n])
+	return payload, nil
 }
 
 func setDefaultGZ[T constraints.Float | constraints.Integer](i *T, s, d T) {
